@@ -226,7 +226,7 @@ def run_history(ops, world, rec, rng, tag):
             if ndefs < len(NEWDEFS):
                 ureg.define(NEWDEFS[ndefs])
                 if "vredef" in stack:
-                    defined_inside_redef.add(f"vfu{ndefs}")
+                    defined_inside_redef.add(("vfu0", "vfu1", "vfu2", "vfu3", "dab")[ndefs])
                 ndefs += 1
                 trace.append(("define", NEWDEFS[ndefs - 1]))
                 rec.count("state_changes")
